@@ -535,18 +535,48 @@ theorem rebuild_denotes {v : Val} {c : Con} {args : List Val} (h : v.con = some 
       simpa [Con.rebuild, Con.arity, rowDenotes, CPat.denotes] using hw
 
 theorem inhabitants {Δ : TSig} (hinh : AllInhabited Δ) : ∀ (τs : List Ty),
-    ∃ vs, All₂ (HasTy Δ) vs τs
-  | [] => ⟨[], All₂.nil⟩
-  | τ :: τs => by
-    obtain ⟨v, hv⟩ := hinh τ
-    obtain ⟨vs, hvs⟩ := inhabitants hinh τs
+    (∀ τ ∈ τs, τ.WfIn Δ.length) → ∃ vs, All₂ (HasTy Δ) vs τs
+  | [], _ => ⟨[], All₂.nil⟩
+  | τ :: τs, h => by
+    obtain ⟨v, hv⟩ := hinh τ (h τ (by simp))
+    obtain ⟨vs, hvs⟩ := inhabitants hinh τs (fun σ hσ => h σ (by simp [hσ]))
     exact ⟨v :: vs, All₂.cons hv hvs⟩
 
+/-- The argument types of a constructor of a well-scoped type are well-scoped. -/
+theorem ConTy.wfIn {Δ : TSig} (hcl : Δ.Closed) {c : Con} {τ : Ty} {as : List Ty}
+    (hc : ConTy Δ c τ as) (hτ : τ.WfIn Δ.length) : ∀ a ∈ as, a.WfIn Δ.length := by
+  cases hc with
+  | data hmem =>
+    intro a ha
+    simp only [List.mem_singleton] at ha
+    subst ha
+    exact hcl _ _ _ hmem
+  | unit => intro a ha; cases ha
+  | prod =>
+    intro a ha
+    simp only [Ty.WfIn] at hτ
+    simp only [List.mem_cons, List.not_mem_nil, or_false] at ha
+    rcases ha with rfl | rfl
+    · exact hτ.1
+    · exact hτ.2
+  | named =>
+    intro a ha
+    simp only [List.mem_singleton] at ha
+    subst ha
+    exact hτ
+  | pack =>
+    intro a ha
+    simp only [List.mem_singleton] at ha
+    subst ha
+    exact hτ
+
 /-- One `uncovered_finite` step of the witness proof. -/
-theorem finite_witness (Δ : TSig) (hwf : WfSig Δ) (m : Matrix) (space : Head) (τ : Ty)
-    (τs : List Ty) (n : Nat) (hn : n = (τ :: τs).length) (hsp : SpaceTy space τ)
+theorem finite_witness (Δ : TSig) (hwf : WfSig Δ) (hcl : Δ.Closed) (m : Matrix) (space : Head)
+    (τ : Ty) (τs : List Ty) (n : Nat) (hn : n = (τ :: τs).length) (hsp : SpaceTy space τ)
+    (hsc : ∀ σ ∈ τ :: τs, σ.WfIn Δ.length)
     (hm : ∀ row ∈ m, All₂ (PatTy Δ) row (τ :: τs))
     (ih : ∀ c : Con, ∀ τs' : List Ty, n - 1 + c.arity = τs'.length →
+      (∀ σ ∈ τs', σ.WfIn Δ.length) →
       (∀ row ∈ specializeM c m, All₂ (PatTy Δ) row τs') →
       ∀ w ∈ uncovered Δ.erase (specializeM c m) (n - 1 + c.arity),
         ∃ vs, All₂ (HasTy Δ) vs τs' ∧ rowDenotes w vs = true ∧ covers (specializeM c m) vs = false) :
@@ -560,21 +590,28 @@ theorem finite_witness (Δ : TSig) (hwf : WfSig Δ) (m : Matrix) (space : Head) 
   obtain ⟨as, hcty⟩ := space_sound hsp hcmem
   have hlen : n - 1 + c.arity = (as ++ τs).length := by
     simp [hn, hcty.length_eq]; omega
-  obtain ⟨vs'', hty, hden, hcov⟩ := ih c (as ++ τs) hlen (specializeM_typed hwf hcty m hm) w' hw'mem
+  have hsc' : ∀ σ ∈ as ++ τs, σ.WfIn Δ.length := by
+    intro σ hσ
+    rcases List.mem_append.1 hσ with h | h
+    · exact hcty.wfIn hcl (hsc τ (by simp)) σ h
+    · exact hsc σ (by simp [h])
+  obtain ⟨vs'', hty, hden, hcov⟩ :=
+    ih c (as ++ τs) hlen hsc' (specializeM_typed hwf hcty m hm) w' hw'mem
   obtain ⟨args, vs, rfl, hargs, hvs⟩ := All₂.split hty
   obtain ⟨v, hv, hcon⟩ := con_build hcty hargs
   refine ⟨v :: vs, All₂.cons hv hvs, rebuild_denotes hcon hden, ?_⟩
   rw [covers_specializeM hcon]
   exact hcov
 
-theorem uncovered_witness_aux (Δ : TSig) (hwf : WfSig Δ) (hinh : AllInhabited Δ) (m : Matrix)
-    (columns : Nat) :
-    ∀ τs : List Ty, columns = τs.length → (∀ row ∈ m, All₂ (PatTy Δ) row τs) →
+theorem uncovered_witness_aux (Δ : TSig) (hwf : WfSig Δ) (hcl : Δ.Closed) (hinh : AllInhabited Δ)
+    (m : Matrix) (columns : Nat) :
+    ∀ τs : List Ty, columns = τs.length → (∀ σ ∈ τs, σ.WfIn Δ.length) →
+      (∀ row ∈ m, All₂ (PatTy Δ) row τs) →
       ∀ w ∈ uncovered Δ.erase m columns,
         ∃ vs, All₂ (HasTy Δ) vs τs ∧ rowDenotes w vs = true ∧ covers m vs = false := by
   fun_induction uncovered Δ.erase m columns with
   | case1 m hm =>
-    intro τs hlen _ w hw
+    intro τs hlen _ _ w hw
     cases τs with
     | cons _ _ => simp at hlen
     | nil =>
@@ -583,12 +620,12 @@ theorem uncovered_witness_aux (Δ : TSig) (hwf : WfSig Δ) (hinh : AllInhabited 
       cases m with
       | nil => exact ⟨[], All₂.nil, rfl, rfl⟩
       | cons _ _ => simp at hm
-  | case2 m hm => intro τs _ _ w hw; simp at hw
+  | case2 m hm => intro τs _ _ _ w hw; simp at hw
   | case3 m columns hc hm =>
-    intro τs hlen _ w hw
+    intro τs hlen hsc _ w hw
     simp at hw
     subst hw
-    obtain ⟨vs, hvs⟩ := inhabitants hinh τs
+    obtain ⟨vs, hvs⟩ := inhabitants hinh τs hsc
     refine ⟨vs, hvs, ?_, ?_⟩
     · rw [hlen, ← hvs.length_eq]
       exact rowDenotes_replicate_wild vs
@@ -596,27 +633,29 @@ theorem uncovered_witness_aux (Δ : TSig) (hwf : WfSig Δ) (hinh : AllInhabited 
       | nil => rfl
       | cons _ _ => simp at hm
   | case4 m columns hc hm space hfh ih =>
-    intro τs hlen hrows w hw
+    intro τs hlen hsc hrows w hw
     cases τs with
     | nil => simp at hlen; exact absurd hlen hc
     | cons τ τs =>
-      exact finite_witness Δ hwf m space τ τs columns hlen (firstHead_spaceTy hrows hfh) hrows ih
-        w hw
+      exact finite_witness Δ hwf hcl m space τ τs columns hlen (firstHead_spaceTy hrows hfh) hsc
+        hrows ih w hw
   | case5 m columns hc hm hfh ih =>
-    intro τs hlen hrows w hw
+    intro τs hlen hsc hrows w hw
     cases τs with
     | nil => simp at hlen; exact absurd hlen hc
     | cons τ τs =>
       have hw' := List.mem_of_mem_take hw
       obtain ⟨w', hw'mem, rfl⟩ := List.mem_map.1 hw'
-      obtain ⟨vs, hvs, hden, hcov⟩ := ih τs (by simp at hlen; omega) (defaultM_typed hrows) w' hw'mem
-      obtain ⟨v, hv⟩ := hinh τ
+      obtain ⟨vs, hvs, hden, hcov⟩ := ih τs (by simp at hlen; omega)
+        (fun σ hσ => hsc σ (by simp [hσ])) (defaultM_typed hrows) w' hw'mem
+      obtain ⟨v, hv⟩ := hinh τ (hsc τ (by simp))
       refine ⟨v :: vs, All₂.cons hv hvs, ?_, ?_⟩
       · simpa [rowDenotes, CPat.denotes] using hden
       · rw [covers_defaultM v vs m hfh]
         exact hcov
 
-theorem top_witness (Δ : TSig) (hwf : WfSig Δ) (hinh : AllInhabited Δ) (arms : List MPat) (τ : Ty)
+theorem top_witness (Δ : TSig) (hwf : WfSig Δ) (hcl : Δ.Closed) (hinh : AllInhabited Δ)
+    (arms : List MPat) (τ : Ty) (hτ : τ.WfIn Δ.length)
     (e : Option Head) (he : ExpectedOk e τ) (hp : ∀ p ∈ arms, PatTy Δ p τ) :
     ∀ row ∈ uncoveredTop Δ.erase (arms.map fun p => [p]) e,
       ∃ v, HasTy Δ v τ ∧ (row.headD .wild).denotes v = true ∧ ∀ p ∈ arms, p.matches v = false := by
@@ -624,10 +663,14 @@ theorem top_witness (Δ : TSig) (hwf : WfSig Δ) (hinh : AllInhabited Δ) (arms 
   have hrows := singleton_rows_typed hp
   have hw : ∃ vs, All₂ (HasTy Δ) vs [τ] ∧ rowDenotes row vs = true ∧
       covers (arms.map fun p => [p]) vs = false := by
+    have hsc : ∀ σ ∈ [τ], σ.WfIn Δ.length := by
+      intro σ hσ
+      simp only [List.mem_singleton] at hσ
+      exact hσ ▸ hτ
     rcases expectedOk_cases he with rfl | ⟨space, rfl, hsp⟩
-    · exact uncovered_witness_aux Δ hwf hinh _ 1 [τ] rfl hrows row hrow
-    · exact finite_witness Δ hwf _ space τ [] 1 rfl hsp hrows
-        (fun c => uncovered_witness_aux Δ hwf hinh _ _) row hrow
+    · exact uncovered_witness_aux Δ hwf hcl hinh _ 1 [τ] rfl hsc hrows row hrow
+    · exact finite_witness Δ hwf hcl _ space τ [] 1 rfl hsp hsc hrows
+        (fun c => uncovered_witness_aux Δ hwf hcl hinh _ _) row hrow
   obtain ⟨vs, hvs, hden, hcov⟩ := hw
   cases hvs with
   | cons hv hnil =>
@@ -701,5 +744,27 @@ theorem dups_nil_iff : ∀ (seen arms : List String),
         exact ⟨fun b hb => (h1 b hb).2, fun hmem => (h1 a hmem).1 rfl, h2⟩
       · rintro ⟨h1, h2, h3⟩
         exact ⟨fun b hb => ⟨fun e => h2 (e ▸ hb), h1 b hb⟩, h3⟩
+
+/-! ### Evaluation lemmas (to run `uncovered` on concrete matrices inside the kernel) -/
+
+theorem uncovered_zero (Δ : Sig) (m : Matrix) :
+    uncovered Δ m 0 = if m.isEmpty then [[]] else [] := by
+  rw [uncovered]; simp
+
+theorem uncovered_nil_succ (Δ : Sig) (n : Nat) :
+    uncovered Δ [] (n + 1) = [List.replicate (n + 1) .wild] := by
+  rw [uncovered]; simp
+
+theorem uncovered_cons_succ (Δ : Sig) (row : List MPat) (rest : Matrix) (n : Nat) :
+    uncovered Δ (row :: rest) (n + 1) =
+      match firstHead (row :: rest) with
+      | some space => uncoveredFinite Δ (row :: rest) (n + 1) space
+      | none =>
+        ((uncovered Δ (defaultM (row :: rest)) n).map fun r => CPat.wild :: r).take
+          (maxReported + 1) := by
+  rw [uncovered]
+  simp only [Nat.add_one_ne_zero, if_false, List.isEmpty_cons, Bool.false_eq_true,
+    Nat.add_sub_cancel]
+  split <;> next h => simp [h, uncoveredFinite]
 
 end ZV.Coverage
